@@ -91,6 +91,16 @@ LINES = {
 }
 
 
+# The measure of a segment does not depend on where the segment lies: the same tessellations on segments FAR from the origin
+# relative to the cell size (|coordinates| / cell length ~ 1e6, e.g. metre-sized cells in UTM coordinates).  The directions are
+# 24 x an integer vector, so that for the lattices k/6 and k/8 every node coordinate is an integer below 2^24: node coordinates,
+# cell lengths and the cross products / quotients formed by segments_3d are exact in double precision.
+FAR_LINES = {
+    "far from the origin, parallel to the x-axis": ((2 ** 23, 0, 0), (24, 0, 0)),
+    "far from the origin, general direction": ((2 ** 23, -(2 ** 22), 2 ** 21), (48, -72, 144)),
+}
+
+
 def _dir_len2(d):
     return sum(Fraction(c) ** 2 for c in d)
 
@@ -99,7 +109,7 @@ def tess_1d(ts, line, scramble):
     """nodes (3,n) as floats, lines (2,n-1); ts sorted parameters (Fractions).  scramble: permutation seed (int)."""
     import numpy as np
 
-    base, d = LINES[line]
+    base, d = LINES[line] if line in LINES else FAR_LINES[line]
     n = len(ts)
     perm = list(range(n))
     if scramble:
@@ -225,6 +235,60 @@ def sweep_1d(rep, pp, quick):
                         continue
                     for ob, detail in check_matrix(M, scaling, "match_1d"):
                         rep.violation(ob, "1-D grids on the x-axis", inputs=inp, detail=f"new interior nodes {inp['new']}, old {inp['old']}: {detail}")
+    far = list(FAR_LINES)
+    step = 2 if quick else 3
+    with rep.sweep(
+        "line_tessellation / match_1d far from the origin",
+        rule=f"the same ordered pairs of node subsets of the lattice k/{N} (every {'2nd' if quick else '3rd'} pair), on two segments whose "
+             "distance from the origin is ~1e6 cell lengths (integer node coordinates around 2^23, cells 3..24 long; one parallel to the "
+             "x-axis, one with all three coordinates varying), alternating; line_tessellation with scrambled node columns and alternating "
+             "segment orientation, and match_1d 'averaged' / 'integrated' on 1-D grids with these nodes; non-trivial = node sets differ; "
+             "distinct by (line, subset 1, subset 2)",
+        bound=f"{len(subsets)} x {len(subsets)} pairs / {step}",
+        exhaustive=False,
+    ) as sw:
+        grids = {}
+
+        def far_grid(S, ln):
+            if (S, ln) not in grids:
+                P, _L = tess_1d([lattice[0], *S, lattice[-1]], ln, 0)
+                g = pp.TensorGrid(np.arange(P.shape[1], dtype=float))
+                g.nodes = P
+                g.compute_geometry()
+                grids[(S, ln)] = g
+            return grids[(S, ln)]
+
+        for a, S1 in enumerate(subsets):
+            for b, S2 in enumerate(subsets):
+                idx = a * len(subsets) + b
+                if idx % step:
+                    continue
+                ln = far[(idx // step) % 2]
+                t1, t2 = [lattice[0], *S1, lattice[-1]], [lattice[0], *S2, lattice[-1]]
+                Lf = float(_dir_len2(FAR_LINES[ln][1])) ** 0.5  # 24 and 168: exact
+                P1, L1 = tess_1d(t1, ln, a)
+                P2, Lb = tess_1d(t2, ln, b + 1)
+                sw.case(key=(ln, S1, S2), nontrivial=(S1 != S2), sample={"line": ln, "nodes_1": [str(t) for t in t1], "nodes_2": [str(t) for t in t2]})
+                inp = {"fn": "line_tessellation", "line": ln, "t1": [str(t) for t in t1], "t2": [str(t) for t in t2], "a": a, "b": b}
+                try:
+                    ov = pp.intersections.line_tessellation(P1, P2, L1, Lb)
+                except Exception as ex:  # noqa: BLE001
+                    rep.violation("line_tessellation: does not raise on two tessellations of one segment", ln, inputs=inp, detail=f"{type(ex).__name__}: {ex}")
+                    ov = None
+                if ov is not None:
+                    m1 = [t1[k + 1] - t1[k] for k in range(len(t1) - 1)]
+                    m2 = [t2[k + 1] - t2[k] for k in range(len(t2) - 1)]
+                    for clause, detail in check_overlaps([(i, j, v / Lf) for i, j, v in ov], m1, m2, 1)[:3]:
+                        rep.violation(f"line_tessellation: {CL[clause]}", ln, inputs=inp, detail=f"nodes {inp['t1']} vs {inp['t2']}: {detail}")
+                for scaling in ("averaged", "integrated"):
+                    inp = {"fn": "match_1d", "line": ln, "new": [str(t) for t in S1], "old": [str(t) for t in S2], "N": N, "scaling": scaling}
+                    try:
+                        M = pp.match_grids.match_1d(far_grid(S1, ln), far_grid(S2, ln), tol=1e-8, scaling=scaling)
+                    except Exception as ex:  # noqa: BLE001
+                        rep.violation("match_1d: does not raise on two grids of one segment", ln, inputs=inp, detail=f"{type(ex).__name__}: {ex}")
+                        continue
+                    for ob, detail in check_matrix(M, scaling, "match_1d"):
+                        rep.violation(ob, f"1-D grids {ln}", inputs=inp, detail=f"new interior nodes {inp['new']}, old {inp['old']}: {detail}")
 
 
 CL = {
@@ -482,12 +546,12 @@ def make_grid(pp, tess, sheared):
     return g
 
 
-def case_match_2d(pp, g_new, g_old, sheared, scaling, tess_new=None, tess_old=None):
+def case_match_2d(pp, g_new, g_old, sheared, scaling, tess_new=None, tess_old=None, tol=1e-8):
     import numpy as np
 
     plane = "sheared plane z=x+2y" if sheared else "plane z=0"
     try:
-        M = pp.match_grids.match_2d(g_new, g_old, tol=1e-8, scaling=scaling)
+        M = pp.match_grids.match_2d(g_new, g_old, tol=tol, scaling=scaling)
     except Exception as ex:  # noqa: BLE001
         return [("match_2d: does not raise on two triangulations of one square", f"{plane}: {type(ex).__name__}", f"{type(ex).__name__}: {ex}")]
     fails = check_matrix(M, scaling, "match_2d")
@@ -581,7 +645,7 @@ def replay(data):
         ln = inp["line"]
         P1, L1 = tess_1d(t1, ln, inp["a"])
         P2, L2 = tess_1d(t2, ln, inp["b"] + 1)
-        Lf = float(_dir_len2(LINES[ln][1])) ** 0.5
+        Lf = float(_dir_len2((LINES[ln] if ln in LINES else FAR_LINES[ln])[1])) ** 0.5
         try:
             ov = pp.intersections.line_tessellation(P1, P2, L1, L2)
         except Exception as ex:  # noqa: BLE001
@@ -597,7 +661,12 @@ def replay(data):
 
         gs = []
         for key in ("new", "old"):
-            g = pp.TensorGrid(np.array([0.0] + [float(Fraction(x)) for x in inp[key]] + [1.0]))
+            if inp.get("line") in FAR_LINES:
+                P, _L = tess_1d([Fraction(0)] + [Fraction(x) for x in inp[key]] + [Fraction(1)], inp["line"], 0)
+                g = pp.TensorGrid(np.arange(P.shape[1], dtype=float))
+                g.nodes = P
+            else:
+                g = pp.TensorGrid(np.array([0.0] + [float(Fraction(x)) for x in inp[key]] + [1.0]))
             g.compute_geometry()
             gs.append(g)
         fails = check_matrix(pp.match_grids.match_1d(gs[0], gs[1], tol=1e-8, scaling=inp["scaling"]), inp["scaling"], "match_1d")
